@@ -102,7 +102,7 @@ func (g *gen) zero(n ast.Node, t types.Type) string {
 			si := g.structOf(n, u)
 			var fs []string
 			for _, f := range si.fields {
-				fs = append(fs, fmt.Sprintf("%s := %s", leanField(f.Name()), g.zero(n, f.Type())))
+				fs = append(fs, fmt.Sprintf("%s := %s", leanField(f.Name()), g.zeroOfVar(n, f)))
 			}
 			_ = st
 			return "({ " + strings.Join(fs, ", ") + " } : " + si.lean + ")"
@@ -167,6 +167,96 @@ func leanField(name string) string {
 		return name + "_"
 	}
 	return name
+}
+
+// ---------------------------------------------------------------- nil-ness of slices
+//
+// A slice-typed variable or field whose nil-ness the translated code observes (it is compared with nil somewhere) is
+// translated as an `Option`: nil is `none`, every other value `some l`. Likewise the elements of a slice of slices
+// whose elements are compared with nil. Everything else keeps nil = the empty list.
+
+func (g *gen) pathObj(info *types.Info, x ast.Expr) (obj types.Object, elem bool) {
+	for {
+		p, ok := x.(*ast.ParenExpr)
+		if !ok {
+			break
+		}
+		x = p.X
+	}
+	switch t := x.(type) {
+	case *ast.Ident:
+		if o := info.Uses[t]; o != nil {
+			return o, false
+		}
+		return info.Defs[t], false
+	case *ast.SelectorExpr:
+		if sel := info.Selections[t]; sel != nil && sel.Kind() == types.FieldVal {
+			return sel.Obj(), false
+		}
+	case *ast.IndexExpr:
+		o, el := g.pathObj(info, t.X)
+		if o != nil && !el {
+			return o, true
+		}
+	}
+	return nil, false
+}
+
+func (g *gen) analyseNil() {
+	g.nilable = map[types.Object]bool{}
+	g.elemNilable = map[types.Object]bool{}
+	for _, fi := range g.order {
+		info := fi.pkg.info
+		ast.Inspect(fi.decl.Body, func(n ast.Node) bool {
+			be, ok := n.(*ast.BinaryExpr)
+			if !ok {
+				return true
+			}
+			for _, pair := range [][2]ast.Expr{{be.X, be.Y}, {be.Y, be.X}} {
+				id, isId := pair[1].(*ast.Ident)
+				if !isId || id.Name != "nil" || !info.Types[pair[1]].IsNil() {
+					continue
+				}
+				if _, isSlice := info.Types[pair[0]].Type.Underlying().(*types.Slice); !isSlice {
+					continue
+				}
+				if o, el := g.pathObj(info, pair[0]); o != nil {
+					if el {
+						g.elemNilable[o] = true
+					} else {
+						g.nilable[o] = true
+					}
+				}
+			}
+			return true
+		})
+	}
+}
+
+// typeOfVar: the Lean type of a variable or field, with the Option wrappers its observed nil-ness asks for
+func (g *gen) typeOfVar(n ast.Node, v types.Object) string {
+	t := g.leanType(n, v.Type())
+	if g.elemNilable[v] {
+		sl, ok := v.Type().Underlying().(*types.Slice)
+		if !ok {
+			g.fail(n, "nil-able elements of %s", v.Type())
+		}
+		t = "(List (Option " + g.leanType(n, sl.Elem()) + "))"
+	}
+	if g.nilable[v] {
+		t = "(Option " + t + ")"
+	}
+	return t
+}
+
+func (g *gen) zeroOfVar(n ast.Node, v types.Object) string {
+	if g.nilable[v] {
+		return "(none : " + g.typeOfVar(n, v) + ")"
+	}
+	if g.elemNilable[v] {
+		return "([] : " + g.typeOfVar(n, v) + ")"
+	}
+	return g.zero(n, v.Type())
 }
 
 // ---------------------------------------------------------------- mutation analysis
